@@ -73,7 +73,15 @@ class Project:
             txt = txt[: mo.start()] + propval + txt[mo.end() :]
         return txt
 
-    def dfs(self, target_name, state):
+    def dfs(self, target_name, state, visited=None):
+        """Depth first walk over the dependencies of a target.
+
+        state is the set of targets on the path from the start target to
+        this target. A dependency on one of those targets is a loop.
+        visited is the set of targets which are completely checked.
+        """
+        if visited is None:
+            visited = set()
         state.add(target_name)
         target = self.get_target(target_name)
         for dep in target.dependencies:
@@ -81,11 +89,37 @@ class Project:
                 raise TaskError(
                     f"Dependency loop detected {target_name} -> {dep}"
                 )
-            self.dfs(dep, state)
+            if dep not in visited:
+                self.dfs(dep, state, visited)
+        state.remove(target_name)
+        visited.add(target_name)
 
     def check_target(self, target_name):
         state = set()
         self.dfs(target_name, state)
+
+    def sorted_targets(self, target_names):
+        """Give the named targets and all targets they depend upon.
+
+        The targets are ordered such that each target comes after all
+        the targets it depends upon. The dependencies must be free of
+        loops, see check_target.
+        """
+        sequence = []
+        visited = set()
+
+        def visit(target_name):
+            if target_name in visited:
+                return
+            visited.add(target_name)
+            target = self.get_target(target_name)
+            for dep in sorted(target.dependencies):
+                visit(dep)
+            sequence.append(target)
+
+        for target_name in target_names:
+            visit(target_name)
+        return sequence
 
     def dependencies(self, target_name):
         assert type(target_name) is str
@@ -204,17 +238,8 @@ class TaskRunner:
         for target in target_list:
             project.check_target(target)
 
-        # Calculate all dependencies:
-        # TODO: make this understandable:
-        target_list = set.union(
-            *[project.dependencies(t) for t in target_list]
-        ).union(set(target_list))
-
-        # Lookup actual targets:
-        target_list = [
-            project.get_target(target_name) for target_name in target_list
-        ]
-        target_list.sort()
+        # Determine the targets to run, dependencies first:
+        target_list = project.sorted_targets(target_list)
 
         self.logger.info(f"Target sequence: {target_list}")
 
